@@ -11,7 +11,7 @@ TECHNIQUE = ('generated program-unit projects (modules, derived types, imports, 
              'x generated histories of clone / clone-of-clone / edits on either copy; oracle = identity-based '
              'scope ownership + snapshots (fgen, structural dump, symbol tables, resolved types) of every *other* copy')
 RULE = ('case = project (2-3 generated Fortran files, enrichment mode plain|defs|enrich, target = source file | module | '
-        'module procedure | free routine | member procedure) + history of 4-9 ops resolved against the evolving state: '
+        'module procedure | free routine | member procedure) + history of 4-7 ops resolved against the evolving state: '
         'clone(copy[, name=]) and edits on any copy (rename variable, retype via symbol_attrs / variables setter / symbol.type, '
         'add / remove declaration, Transformer and SubstituteExpressions on body/spec (inplace or not), node._update, Section.append/prepend, '
         'rename unit, enrich, symbol-table update/pop/clear, TypeDef and Associate edits, import edits), on the unit or a contained unit. '
@@ -38,7 +38,7 @@ def flags():
     if _FLAGS is None:
         d = U.known_defects()
         _FLAGS = {'print': not d['print-not-rescoped'], 'dtsym': not d['dtsym-not-rescoped'], 'casts': True,
-                  'typedef_link': not d['typedef-link-to-source']}
+                  'typedef_link': not d['typedef-link-to-source'], 'import_link': not d['clone-keeps-import-links-into-source']}
     return _FLAGS
 
 ATTRS_CHECKED = ('shape', 'kind', 'initial', 'length')
@@ -51,7 +51,7 @@ EDIT_OPS = ['rename_var', 'retype', 'add_decl', 'remove_decl', 'body_xform', 'su
 @st.composite
 def cases(draw, kind=None, thorough=False):
     case = draw(gen_units.projects(thorough=thorough, kind=kind, flags=flags()))
-    nops = draw(st.integers(3, 8))
+    nops = draw(st.integers(3, 6))
     ops = [['clone', 0, draw(st.integers(0, 3)), 0, 0]]
     for _ in range(nops):
         w = draw(st.integers(0, 99))
@@ -107,7 +107,22 @@ def linked_typedefs(inv):
     return out
 
 
-def apply_edit(op, copy, inv, defs, foreign_typedef_links=frozenset()):
+def linked_units(inv):
+    """ids of the program units that the symbol tables of ``inv`` point to (module= of imported names, ProcedureType.procedure)"""
+    from loki.types import ProcedureType
+    out = set()
+    for s in inv.scopes:
+        for attrs in dict.values(s.symbol_attrs):
+            m = attrs.__dict__.get('module')
+            if m is not None:
+                out.add(id(m))
+            if isinstance(attrs.dtype, ProcedureType) and attrs.dtype._procedure is not None and attrs.dtype._procedure() is not None:
+                out.add(id(attrs.dtype._procedure()))
+    return out
+
+
+def apply_edit(op, copy, inv, defs, foreign_typedef_links=frozenset(), allow_known=True, foreign_unit_links=frozenset(),
+               allow_import_link=True):
     """perform one edit on ``copy`` (a loki object); returns a short label; raises Noop if not applicable"""
     from loki import Transformer, SubstituteExpressions, FindNodes, FindVariables, Subroutine, Module
     from loki.ir import nodes as ir
@@ -217,6 +232,8 @@ def apply_edit(op, copy, inv, defs, foreign_typedef_links=frozenset()):
         return f'subst:{sname}:{"inplace" if inplace else "rebuild"}:{ulab}'
 
     if kind == 'rename_unit':
+        if id(unit) in foreign_unit_links and not allow_import_link:
+            raise Excluded('renaming a unit that the imports of another copy still point to (known finding import-link)')
         unit.name = unit.name + '_x'
         return f'rename_unit:{type(unit).__name__}:{ulab}'
 
@@ -277,7 +294,7 @@ def apply_edit(op, copy, inv, defs, foreign_typedef_links=frozenset()):
             raise Noop()
         td = inv.typedefs[u % len(inv.typedefs)]
         what = how % 3
-        if id(td) in foreign_typedef_links and not flags()['typedef_link']:
+        if id(td) in foreign_typedef_links and not allow_known:
             raise Excluded('TypeDef edit while another copy\'s types still point to this TypeDef (known finding typedef-link)')
         if what == 0:
             td._update(name=td.name + '_x')
@@ -441,7 +458,7 @@ def check_case(case, ctx):
             break
         kind = op[0]
         if kind == 'clone':
-            if len(copies) >= 4:
+            if len(copies) >= 3:
                 ctx.count('op:clone:skipped-max-copies')
                 continue
             si = op[1] % len(copies)
@@ -477,12 +494,15 @@ def check_case(case, ctx):
             obs = new_obs
             continue
         ci = op[1] % len(copies)
-        links = set()
+        links, ulinks = set(), set()
         for j in range(len(copies)):
             if j != ci:
                 links |= linked_typedefs(obs[j][0])
+                ulinks |= linked_units(obs[j][0])
         try:
-            label = apply_edit(op, copies[ci], obs[ci][0], defs, links)
+            label = apply_edit(op, copies[ci], obs[ci][0], defs, links,
+                               allow_known=case.get('allow_known_triggers', flags()['typedef_link']), foreign_unit_links=ulinks,
+                               allow_import_link=case.get('allow_known_triggers', flags()['import_link']))
         except Noop:
             ctx.count(f'op:{kind}:not-applicable')
             continue
@@ -513,6 +533,8 @@ def check_case(case, ctx):
                 sig = _changed_sig(d[0], d[1])
                 if label.startswith('typedef_edit') and linked_typedefs(new_obs[j][0]) & {id(t) for t in new_obs[ci][0].typedefs}:
                     sig = 'C17:other-copy-changed:via-typedef-link'
+                elif linked_units(new_obs[j][0]) & {id(x) for x in new_obs[ci][0].units}:
+                    sig = 'C17:other-copy-changed:via-import-link-into-other-copy'
                 ctx.fail(sig, case, f'op {op} ({label}) on copy {ci} changed copy {j}: {d[0]}: {d[1]}')
         obs = new_obs
     ctx.case(case, nscopes >= 2 and effective_with_two >= 1 and len(copies) >= 2,
